@@ -662,7 +662,7 @@ class OperatorFuncNode(Node):
         self.children["attrs"] = get_tree(state["attrs"], load_context, trusted=trusted)
 
     def _construct(self):
-        op = getattr(operator, self.class_name)
+        op = gettype(self.module_name, self.class_name)
         attrs = self.children["attrs"].construct()
         return op(*attrs)
 
